@@ -1,6 +1,8 @@
 package main
 
 import (
+	"fmt"
+	"go/token"
 	"go/types"
 	"sort"
 
@@ -58,10 +60,26 @@ func assertMatches(t, asserted types.Type) bool {
 
 // firstTypeAssertOn finds the first comma-ok type assertion on val in block order
 // whose block is not dominated by another assertion on val (the head of the switch).
+// switchKey names the value a type assertion looks at so that two reads of the same field of the same struct value
+// (x.f.(T) written twice instead of one `switch x.f.(type)`) count as the same value.
+func switchKey(v ssa.Value) string {
+	switch x := v.(type) {
+	case *ssa.Field:
+		return fmt.Sprintf("%s.#%d", switchKey(x.X), x.Field)
+	case *ssa.UnOp:
+		if fa, ok := x.X.(*ssa.FieldAddr); ok && x.Op == token.MUL {
+			return fmt.Sprintf("*%s.#%d", switchKey(fa.X), fa.Field)
+		}
+	}
+	return fmt.Sprintf("%p", v)
+}
+
+func sameSwitchVal(a, b ssa.Value) bool { return a == b || switchKey(a) == switchKey(b) }
+
 func switchHead(fn *ssa.Function, val ssa.Value) *ssa.TypeAssert {
 	for _, b := range fn.Blocks {
 		for _, in := range b.Instrs {
-			if ta, ok := in.(*ssa.TypeAssert); ok && ta.CommaOk && ta.X == val {
+			if ta, ok := in.(*ssa.TypeAssert); ok && ta.CommaOk && sameSwitchVal(ta.X, val) {
 				return ta
 			}
 		}
@@ -108,7 +126,7 @@ func simulateFrom(ta *ssa.TypeAssert, t types.Type) (body *ssa.BasicBlock, isDef
 		next := iff.Block().Succs[1]
 		var nta *ssa.TypeAssert
 		for _, in := range next.Instrs {
-			if x, ok := in.(*ssa.TypeAssert); ok && x.CommaOk && x.X == val {
+			if x, ok := in.(*ssa.TypeAssert); ok && x.CommaOk && sameSwitchVal(x.X, val) {
 				nta = x
 				break
 			}
@@ -123,19 +141,20 @@ func simulateFrom(ta *ssa.TypeAssert, t types.Type) (body *ssa.BasicBlock, isDef
 // switchedValue returns the interface value that fn type-switches on and that is a
 // requestPacket (the `pkt.requestPacket` of the worker functions).
 func requestSwitchValue(fn *ssa.Function) ssa.Value {
-	counts := map[ssa.Value]int{}
+	counts := map[string]int{}
 	var order []ssa.Value
 	eachInstr(fn, func(in ssa.Instruction) {
 		if ta, ok := in.(*ssa.TypeAssert); ok && ta.CommaOk && typeName(ta.X.Type()) == "requestPacket" {
-			if counts[ta.X] == 0 {
+			k := switchKey(ta.X)
+			if counts[k] == 0 {
 				order = append(order, ta.X)
 			}
-			counts[ta.X]++
+			counts[k]++
 		}
 	})
 	var best ssa.Value
 	for _, v := range order {
-		if best == nil || counts[v] > counts[best] {
+		if best == nil || counts[switchKey(v)] > counts[switchKey(best)] {
 			best = v
 		}
 	}
